@@ -117,7 +117,9 @@ func c09Property(t *rapid.T) {
 	if sharedDiff > 0 && onlyA && onlyB {
 		d := hx.Digest(hx.Snapshot(a), hx.Snapshot(b), hx.Snapshot(c))
 		if hx.NonTrivial(d) {
-			hx.Sample(func() any { return map[string]string{"A": hx.DescribeNL(a), "B": hx.DescribeNL(b), "C": hx.DescribeNL(c)} })
+			hx.Sample(func() any {
+				return map[string]string{"A": hx.DescribeNL(a), "B": hx.DescribeNL(b), "C": hx.DescribeNL(c)}
+			})
 		}
 	}
 
